@@ -188,9 +188,12 @@ class TBRMMDesignParameters:
     test_ok = specified and testf(value, bound)
     if not test_ok:
       raise ValueError('{} must be {} {}'.format(attr, op, bound))
-    if isinstance(bound, int) and (value == float('inf') or
-                                   int(value) != value):
-      raise ValueError('{} must be an integer'.format(attr))
+    if isinstance(bound, int):
+      if value == float('inf') or int(value) != value:
+        raise ValueError('{} must be an integer'.format(attr))
+      # Integer-valued floats are accepted; store them as integers since these
+      # parameters are used as counts and indices.
+      setattr(self, attr, int(value))
 
   def _test_value_within_bounds(self, lower, op1, attr, op2, upper):
     """Test that the value of the attribute is within the given bounds.
@@ -267,10 +270,12 @@ class TBRMMDesignParameters:
         if not range_ok:
           template = 'Lower bound of {} must be {} upper bound'
           raise ValueError(template.format(attr, op3))
-        elif (isinstance(lower, int) and
-              (int(lower_range) != lower_range or
-               int(upper_range) != upper_range)):
-          raise ValueError('{} must be integers'.format(attr))
+        elif isinstance(lower, int):
+          if (int(lower_range) != lower_range or
+              int(upper_range) != upper_range):
+            raise ValueError('{} must be integers'.format(attr))
+          # Integer-valued floats are accepted; store them as integers.
+          setattr(self, attr, (int(lower_range), int(upper_range)))
       else:
         inv_op1 = self. _inverse_op[op1]
         if upper is float('inf'):
